@@ -69,6 +69,18 @@ fn main() {
         println!("{}", checks::c20::report_json(&src, path.as_deref(), &Default::default()));
         return;
     }
+    if id == "seq-probe" {
+        // tsverif seq-probe <a.js> <b.js> ... : run the programs one after the other on ONE interpreter
+        let log = std::rc::Rc::new(std::cell::RefCell::new(Vec::new()));
+        let mut interp = runner::new_interp(&log);
+        let cfg = runner::RunConfig::default();
+        for f in args.iter().skip(2) {
+            let src = std::fs::read_to_string(f).expect("read");
+            let o = runner::run_on(&mut interp, &log, &src, &cfg);
+            println!("{}: {} {} {} {}", f, o.kind, o.value, o.error_class, o.error_msg);
+        }
+        return;
+    }
     if id == "leak-probe" {
         // tsverif leak-probe <file.js> : live objects after collect over 8 runs on one interpreter
         let src = std::fs::read_to_string(&cmd).expect("read");
